@@ -62,7 +62,7 @@ func vfC10RingArea(c int) {
 
 // ---- polygon: |outer| - sum |holes| ; multi-polygon and collection: sums ----
 
-func vfC10PolygonArea_N(tier int) int     { return 3 }
+func vfC10PolygonArea_N(tier int) int     { return 2 + tier }
 func vfC10PolygonArea_Label(c int) string { return "holes=" + strconv.Itoa(c) }
 
 func vfC10PolygonArea(c int) {
@@ -79,14 +79,14 @@ func vfC10PolygonArea(c int) {
 	vfAssert("polygon-area-outer-minus-holes", 2*a == want)
 }
 
-func vfC10Sums_N(tier int) int     { return 3 }
-func vfC10Sums_Label(c int) string { return []string{"multipolygon", "collection-mixed", "collection-lines"}[c] }
+func vfC10Sums_N(tier int) int     { return 2 + tier }
+func vfC10Sums_Label(c int) string { return []string{"collection-mixed", "collection-lines", "multipolygon"}[c] }
 
 func vfC10Sums(c int) {
 	t1, t2 := vfPts("a", 3), vfPts("b", 3)
 	p1, p2 := orb.Polygon{vfClosedRing(t1)}, orb.Polygon{vfClosedRing(t2)}
 	vfReach("sums")
-	switch c {
+	switch (c + 1) % 3 {
 	case 0:
 		mp := orb.MultiPolygon{p1, p2}
 		vfAssert("multipolygon-area-sum", 2*Area(mp) == vfAbs(vfShoelace2(t1))+vfAbs(vfShoelace2(t2)))
